@@ -403,7 +403,16 @@ func (x *Exec) foreignNonce() string {
 	return foreignNonce()
 }
 
+// FirstCrowdPeer: peer indices from here on name hosts of a crowd (10.3.x.y:7000) that exist only
+// as addresses - enough of them to fill whatever table the server keeps per allocation.
+const FirstCrowdPeer = 1000
+
 func peerAddrOf(i int) *net.UDPAddr {
+	if i >= FirstCrowdPeer {
+		k := i - FirstCrowdPeer
+
+		return &net.UDPAddr{IP: net.IPv4(10, 3, byte(k/200), byte(k%200+1)), Port: 7000}
+	}
 	p := PeerPool[((i%len(PeerPool))+len(PeerPool))%len(PeerPool)]
 
 	return p
